@@ -376,4 +376,76 @@ example : ¬ NonnegLats negLat ∧ WFKernel negLat ∧ LoadsKnown negLat ∧
     longestChain (infosOf negLat) (wedgesOf (create .x86 false {} negLat)) = 5 := by
   decide +kernel
 
+/-! ### corollaries at the property's wording -/
+
+theorem forwardEdges_create (isa : Isa) (fd : Bool) (par : Params) (k : List Ins) (hk : WFKernel k) :
+    ForwardEdges (create isa fd par k) :=
+  fun e he => C03.edges_forward isa fd par k hk e he
+
+/-- **`cp_is_longest`, graph-generic**: over any forward graph with non-negative weights whose load
+    edges carry the load stages, the reported total is the MAXIMUM of `Chain.len` over all genuine
+    dependency chains: attained by one, dominating all. -/
+theorem cp_is_longest_graph (k : List Ins) (hk : WFKernel k) (hne : k ≠ []) (es : List Edge)
+    (hfw : ForwardEdges es) (hw : NonnegWeights es) (hls : LoadStagesAgree k es) :
+    (∃ c : Chain, c.Valid (infosOf k) (wedgesOf es) ∧ c.len (infosOf k) = cpTotal k es) ∧
+    (∀ c : Chain, c.Valid (infosOf k) (wedgesOf es) → c.len (infosOf k) ≤ cpTotal k es) := by
+  rw [cpTotal_eq_longestChain_of k es hw hls]
+  apply longestChain_is_max
+  · rw [infosOf_lines]; exact nodup_of_sorted _ hk
+  · exact fwdIn_of_forwardEdges k hk es hfw
+  · simpa [infosOf] using hne
+
+/-- **`cp_is_longest`** (the property): for every non-empty kernel with increasing lines, known load
+    latencies and non-negative latencies, the critical-path total of the repaired
+    `get_critical_path` on OSACA's dependency graph is the length of the longest latency-weighted
+    dependency chain — `lat i` for a single instruction, `loadStage i₁ + Σ w + lat iₙ` otherwise:
+    some genuine chain has exactly this length and no genuine chain is longer. -/
+theorem cp_is_longest (isa : Isa) (fd : Bool) (par : Params) (k : List Ins) (hk : WFKernel k)
+    (hkn : LoadsKnown k) (hst : NonnegStages k) (hlat : NonnegLats k) (hpar : NonnegParams par)
+    (hne : k ≠ []) :
+    (∃ c : Chain, c.Valid (infosOf k) (wedgesOf (create isa fd par k)) ∧
+      c.len (infosOf k) = cpTotal k (create isa fd par k)) ∧
+    (∀ c : Chain, c.Valid (infosOf k) (wedgesOf (create isa fd par k)) →
+      c.len (infosOf k) ≤ cpTotal k (create isa fd par k)) :=
+  cp_is_longest_graph k hk hne _ (forwardEdges_create isa fd par k hk)
+    (create_nonnegWeights isa fd par k hst hlat hpar) (create_loadStagesAgree isa fd par k hk hkn)
+
+/-- **`cp_ge_every_chain`**: the reported critical path is never smaller than any dependency chain
+    (also for the empty kernel, which has no chain) -/
+theorem cp_ge_every_chain (isa : Isa) (fd : Bool) (par : Params) (k : List Ins) (hk : WFKernel k)
+    (hkn : LoadsKnown k) (hst : NonnegStages k) (hlat : NonnegLats k) (hpar : NonnegParams par)
+    (c : Chain) (hv : c.Valid (infosOf k) (wedgesOf (create isa fd par k))) :
+    c.len (infosOf k) ≤ cpTotal k (create isa fd par k) := by
+  rw [cpTotal_eq_longestChain isa fd par k hk hkn hst hlat hpar]
+  refine longestChain_ge _ _ ?_ (fwdIn_of_forwardEdges k hk _ (forwardEdges_create isa fd par k hk)) c hv
+  rw [infosOf_lines]; exact nodup_of_sorted _ hk
+
+theorem cp_ge_every_instr_graph (k : List Ins) (hk : WFKernel k) (es : List Edge)
+    (hfw : ForwardEdges es) (hw : NonnegWeights es) (hls : LoadStagesAgree k es) (i : Ins) (hi : i ∈ k) :
+    i.lat ≤ cpTotal k es := by
+  have hnd : ((infosOf k).map (·.line)).Nodup := by rw [infosOf_lines]; exact nodup_of_sorted _ hk
+  have hinfo : (⟨i.line, i.lat, loadStageOf i⟩ : LatInfo) ∈ infosOf k := List.mem_map.mpr ⟨i, hi, rfl⟩
+  have hv := single_valid (infosOf k) (wedgesOf es) _ hinfo
+  have hlen : (Chain.mk i.line []).len (infosOf k) = i.lat := by
+    simp only [Chain.len]
+    exact latOf_eq (infosOf k) hnd _ hinfo
+  rw [cpTotal_eq_longestChain_of k es hw hls, ← hlen]
+  exact longestChain_ge _ _ hnd (fwdIn_of_forwardEdges k hk es hfw) _ hv
+
+/-- **`cp_ge_every_instr`**: the reported critical path is never smaller than the latency of any
+    single instruction of the kernel (what the old code violated: `cp_underreports`) -/
+theorem cp_ge_every_instr (isa : Isa) (fd : Bool) (par : Params) (k : List Ins) (hk : WFKernel k)
+    (hkn : LoadsKnown k) (hst : NonnegStages k) (hlat : NonnegLats k) (hpar : NonnegParams par)
+    (i : Ins) (hi : i ∈ k) : i.lat ≤ cpTotal k (create isa fd par k) :=
+  cp_ge_every_instr_graph k hk _ (forwardEdges_create isa fd par k hk)
+    (create_nonnegWeights isa fd par k hst hlat hpar) (create_loadStagesAgree isa fd par k hk hkn) i hi
+
+-- non-vacuity: on the witness the chain 1 → 2 is genuine and attains the reported total; the
+-- multiply alone (latency 7) does not exceed it
+example :
+    let es := create .x86 false {} witness
+    witness ≠ [] ∧ ForwardEdges es ∧ (Chain.mk 1 [⟨1, 2, 3⟩]).Valid (infosOf witness) (wedgesOf es) ∧
+    (Chain.mk 1 [⟨1, 2, 3⟩]).len (infosOf witness) = cpTotal witness es ∧
+    (witness.map (·.lat)) = [7, 0] := by decide +kernel
+
 end OsacaVerif.Props.C04
